@@ -948,4 +948,9 @@ class AServerEnterUnit(ServerEnterUnit):
 from contracts.ctors import SERVLET_CTORS      # noqa: E402
 UNITS = list(SERVLET_CTORS) + [EnterServer, EnterServerThreadQ, SimpleStart, ThreadStart, SimpleStop, ThreadStop, CompoundStart, EnsembleStart, SwitchStart, CompoundStop, SwitchStop, SequentialStop,
          ServerExit, ServerExitThreadQ, AServerExit, OnboardUnit, WorkerRun, ServerEnterUnit, AServerEnterUnit]
+# stopping completely: the end marker travels input queue -> every worker loop (ends on it and passes it on; Worker.start re-broadcasts it for its siblings) -> output queue -> gather thread (ends on it)
+from contracts.worker import UNITS_SINGLE, UNITS_BATCH      # noqa: E402
+from contracts.servlet import UNITS_FORWARD, UNITS_DEQUEUE      # noqa: E402
+from contracts.server import GatherUnit, AGatherUnit      # noqa: E402
+UNITS += [u for u in list(UNITS_SINGLE) + list(UNITS_BATCH) + list(UNITS_FORWARD) + list(UNITS_DEQUEUE) + [GatherUnit, AGatherUnit] if u not in UNITS]
 SCENARIOS = [('', 'replay/scenarios/c11_init_failure_cleanup.py'), ('', 'replay/scenarios/c11_abandoned_stream_exit.py')]
